@@ -130,3 +130,11 @@ impl NetcodeClientTransport {
         Ok(())
     }
 }
+
+#[cfg(renet_verif)]
+impl NetcodeClientTransport {
+    /// Read-only view of the netcode layer, for the verification harness.
+    pub fn verif_netcode_client(&self) -> &NetcodeClient {
+        &self.netcode_client
+    }
+}
